@@ -1,0 +1,11 @@
+//go:build verif
+
+// Contracts (machine-checked by /verif/engine, see /verif/DESIGN.md). Comment-only file.
+package mathutil
+
+// ---- C07: floor division and bit sets behind the player-info bit set ------------------------------------------------
+// A new bit set has ceil(length / 8) zero bytes.
+//@ func NewBitSet
+//@   props C07
+//@   requires length >= 0 && length <= 0x100000000000000
+//@   ensures [ceil-length-over-8-bytes] result != nil && len(result.Bytes) == (length + 7) / 8
